@@ -351,8 +351,9 @@ class Call:
 
     def eval_new_data_offset(self, data_mask):
         if self._intermediate_data.kind == "constant":
-            # Return value passed as the argument
-            result = np.ones(len(data_mask.index)) * self.call.args[0].value
+            # Return the constant seen at training: the argument may be a literal, a signed number,
+            # an arithmetic expression or a name bound to a number
+            result = np.ones(len(data_mask.index)) * self._intermediate_data.x
         else:
             # This works both for LazyVariable (offset(x)) and LazyCall (offset(np.log(x)))
             offset = self.call.eval(data_mask, self.env)  # returns instance of Offset
@@ -364,8 +365,9 @@ class Call:
 
     def eval_new_data_proportion(self, data_mask):
         if self._intermediate_data.trials_type == "constant":
-            # Return value passed in the second component
-            result = np.ones(len(data_mask.index)) * self.call.args[1].value
+            # Return the constant number of trials seen at training (a literal, an arithmetic
+            # expression or a name bound to a number)
+            result = np.ones(len(data_mask.index)) * self._intermediate_data.trials[0]
         else:
             # Extract name of the second component
             name = self.call.args[1].name
